@@ -157,3 +157,80 @@ theorem zip_map_self (l : List Rat) (g : Rat → Rat) : l.zip (l.map g) = l.map 
   | cons a t ih => simp [ih]
 
 end CycleStats
+
+namespace CycleStats
+open Maps
+
+/-! ### when the per-cycle loop of phase_align returns -/
+
+theorem gather_length_of_lt {α : Type} (vals : List α) (inds : List Nat) (h : ∀ i ∈ inds, i < vals.length) :
+    (gather vals inds).length = inds.length := by
+  induction inds with
+  | nil => simp [gather]
+  | cons i t ih =>
+    have hi : i < vals.length := h i (by simp)
+    have := ih (fun j hj => h j (List.mem_cons_of_mem _ hj))
+    unfold gather at this ⊢
+    simp [List.getElem?_eq_getElem hi, this]
+
+theorem insertPt_length (p : Rat × Rat) (l : List (Rat × Rat)) : (insertPt p l).length = l.length + 1 := by
+  induction l with
+  | nil => simp [insertPt]
+  | cons q t ih => by_cases h : p.1 ≤ q.1 <;> simp [insertPt, h, ih]
+
+theorem sortPts_length (l : List (Rat × Rat)) : (sortPts l).length = l.length := by
+  induction l with
+  | nil => simp [sortPts]
+  | cons p t ih =>
+    have : sortPts (p :: t) = insertPt p (sortPts t) := by simp [sortPts]
+    rw [this, insertPt_length, ih]; simp
+
+/-- one column: rejected (ValueError from interp1d) exactly when the cycle has no sample; the result
+    has one entry per phase bin otherwise -/
+theorem alignCycle_cases (ip x : List Rat) (inds : List Nat) (bins : List Rat)
+    (h1 : ∀ i ∈ inds, i < ip.length) (h2 : ∀ i ∈ inds, i < x.length) :
+    (inds = [] → alignCycle ip x inds bins = .error .valueError) ∧
+    (inds ≠ [] → ∃ col, alignCycle ip x inds bins = .ok col ∧ col.length = bins.length) := by
+  have hlen : (sortPts ((gather ip inds).zip (gather x inds))).length = inds.length := by
+    rw [sortPts_length, List.length_zip, gather_length_of_lt ip inds h1, gather_length_of_lt x inds h2]; simp
+  constructor
+  · intro he
+    subst he
+    simp [alignCycle, gather, sortPts]
+  · intro hne
+    have hpos : 0 < inds.length := List.length_pos_iff.mpr hne
+    have hnotEmpty : (sortPts ((gather ip inds).zip (gather x inds))).isEmpty = false := by
+      cases hs : sortPts ((gather ip inds).zip (gather x inds)) with
+      | nil => rw [hs] at hlen; simp at hlen; omega
+      | cons _ _ => simp
+    refine ⟨bins.map (linInterp (sortPts ((gather ip inds).zip (gather x inds)))), ?_, by simp⟩
+    unfold alignCycle
+    simp only [hnotEmpty]
+    simp
+
+theorem sequence_all_ok {α : Type} (l : List (Except Err α)) (h : ∀ e ∈ l, ∃ a, e = Except.ok a) :
+    ∃ r, sequence l = .ok r := by
+  induction l with
+  | nil => exact ⟨[], rfl⟩
+  | cons e t ih =>
+    obtain ⟨a, rfl⟩ := h e (by simp)
+    obtain ⟨r, hr⟩ := ih (fun e' he' => h e' (List.mem_cons_of_mem _ he'))
+    exact ⟨a :: r, by simp [sequence, hr]⟩
+
+/-- when every failing step fails with the same error `err`, so does the loop -/
+theorem sequence_error {α : Type} (l : List (Except Err α)) (err : Err)
+    (h : ∀ e ∈ l, (∃ a, e = Except.ok a) ∨ e = .error err) (hex : ∃ e ∈ l, e = Except.error err) :
+    sequence l = .error err := by
+  induction l with
+  | nil => obtain ⟨_, he, _⟩ := hex; simp at he
+  | cons e t ih =>
+    rcases h e (by simp) with ⟨a, rfl⟩ | rfl
+    · have hex' : ∃ e' ∈ t, e' = Except.error err := by
+        obtain ⟨e', he', rfl⟩ := hex
+        simp at he'
+        exact ⟨_, he', rfl⟩
+      have := ih (fun e' he' => h e' (List.mem_cons_of_mem _ he')) hex'
+      simp [sequence, this]
+    · simp [sequence]
+
+end CycleStats
